@@ -4,9 +4,11 @@ real call handler `call cmpF procs fuel`; `newRBNode`, `addNode`, `deleteNode` a
 `Find`, `Set` preserve the pointer-level invariant `WF`.
 -/
 import Ekit.Lemmas.RBPtrSafe
+import Ekit.MiniGo.RBOrder
 import Ekit.Lemmas.RBPtrRotate
 import Ekit.Lemmas.RBPtrAdd
 import Ekit.Lemmas.RBPtrDelete
+import Ekit.Lemmas.RBPtrSucc
 
 namespace Ekit.MiniGo.RBHeap
 open Ekit.MiniGo Ekit.Gen.RBTreeGo
@@ -45,7 +47,8 @@ theorem call_getColor_pure : ∀ fuel args st v st', call cmpF procs fuel .getCo
 theorem call_newRBNode : ∀ fuel args st v st' t, Holds st t →
     call cmpF procs fuel .newRBNode args st = .ok (v, st') →
     ∃ n, v = .ptr (some n) ∧ n ∉ t.addrs ∧ n < st'.alloc ∧ Holds st' t ∧
-      (st'.h n).left = none ∧ (st'.h n).right = none ∧ (st'.h n).parent = none := by
+      (st'.h n).left = none ∧ (st'.h n).right = none ∧ (st'.h n).parent = none ∧
+      (∀ a, a ≠ n → (st'.h a).key = (st.h a).key) := by
   intro fuel args st v st' t hH h
   cases fuel with
   | zero => simp [call] at h
@@ -55,11 +58,14 @@ theorem call_newRBNode : ∀ fuel args st v st' t, Holds st t →
     cases hy : Env.ofArgs args 1 <;> simp [hy] at h
     obtain ⟨rfl, rfl⟩ := h
     have hfresh : st.alloc ∉ t.addrs := fun hm => Nat.lt_irrefl _ (hH.2.2 _ hm)
-    refine ⟨st.alloc, rfl, hfresh, by simp, ⟨?_, hH.2.1, fun a ha => Nat.lt_succ_of_lt (hH.2.2 a ha)⟩, ?_, ?_, ?_⟩
+    refine ⟨st.alloc, rfl, hfresh, by simp, ⟨?_, hH.2.1, fun a ha => Nat.lt_succ_of_lt (hH.2.2 a ha)⟩, ?_, ?_, ?_, ?_⟩
     · refine repr_congr (fun b hb => ?_) hH.1
       have : b ≠ st.alloc := fun e => hfresh (e ▸ hb)
       simp [upd, this, SamePtrs]
-    all_goals simp [upd]
+    · simp [upd]
+    · simp [upd]
+    · simp [upd]
+    · intro a ha; simp [upd, ha]
 
 theorem wf_add (fuel : Nat) (k v : Int) (st : St) (r : Val) (st' : St) (hW : WF st)
     (h : call cmpF procs fuel .Add [.int k, .int v] st = .ok (r, st')) : WF st' := by
@@ -83,7 +89,10 @@ theorem wf_add (fuel : Nat) (k v : Int) (st : St) (r : Val) (st' : St) (hW : WF 
         cases f with
         | zero => simp [call] at h2
         | succ g =>
-          exact AddN.addNode_spec cmpF (call cmpF procs g) g (call_specK cmpF g) (call_newRBNode cmpF g) n st1 y st2 t H1 h2
+          exact AddN.addNode_spec cmpF (call cmpF procs g) g (call_specK cmpF g)
+            (fun args st v st' t hH h => by
+              obtain ⟨n, e1, e2, e3, e4, e5, e6, e7, _⟩ := call_newRBNode cmpF g args st v st' t hH h
+              exact ⟨n, e1, e2, e3, e4, e5, e6, e7⟩) n st1 y st2 t H1 h2
 
 theorem wf_delete (fuel : Nat) (k : Int) (st : St) (r : Val) (st' : St) (hW : WF st)
     (h : call cmpF procs fuel .Delete [.int k] st = .ok (r, st')) : WF st' := by
@@ -131,5 +140,100 @@ theorem wf_set (fuel : Nat) (k v : Int) (st : St) (r : Val) (st' : St) (hW : WF 
   obtain ⟨t, hH⟩ := hW
   obtain ⟨t1, H1, _, _⟩ := call_specK cmpF fuel .Set rfl [Val.int k, Val.int v] st r st' t hH (by simp [PtrIn]) h
   exact ⟨t1, H1⟩
+
+/-! ### search-tree order -/
+
+theorem call_findSuccessor : ∀ fuel a st v st' t, Holds st t → a ∈ t.addrs → (st.h a).right ≠ none →
+    call cmpF procs fuel .findSuccessor [.ptr (some a)] st = .ok (v, st') →
+    st' = st ∧ ∃ s pre post, v = .ptr (some s) ∧ t.addrs = pre ++ a :: s :: post ∧ (st.h s).left = none := by
+  intro fuel a st v st' t hH ha hr h
+  cases fuel with
+  | zero => simp [call] at h
+  | succ f => exact Succ.findSuccessor_spec cmpF (call cmpF procs f) f a st v st' t hH ha hr h
+
+theorem ordered_of_keys_eq {st st' : St} {t : PT} (ho : Ordered cmpF st t)
+    (hk : ∀ a ∈ t.addrs, (st'.h a).key = (st.h a).key) : Ordered cmpF st' t := by
+  have : keysOf st' t = keysOf st t := List.map_congr_left hk
+  simp only [Ordered, this]; exact ho
+
+theorem ordwf_add (hLaw : Ekit.RB.LawfulCmp cmpF) (fuel : Nat) (k v : Int) (st : St) (r : Val) (st' : St)
+    (hW : OrdWF cmpF st) (h : call cmpF procs fuel .Add [.int k, .int v] st = .ok (r, st')) : OrdWF cmpF st' := by
+  obtain ⟨t, hH, hO⟩ := hW
+  cases fuel with
+  | zero => simp [call] at h
+  | succ f =>
+    simp only [call, runBody, procs, body_Add, exec, evalE, Env.ofArgs, List.getD] at h
+    cases h1 : call cmpF procs f .newRBNode [Val.int k, Val.int v] st with
+    | error e => simp [h1] at h
+    | ok r1 =>
+      obtain ⟨x, st1⟩ := r1
+      simp [h1] at h
+      obtain ⟨n, rfl, hn, _, H1, _, _, _, hk⟩ := call_newRBNode cmpF f _ st x st1 t hH h1
+      have O1 : Ordered cmpF st1 t := ordered_of_keys_eq cmpF hO (fun a ha => hk a (fun e => hn (e ▸ ha)))
+      cases h2 : call cmpF procs f .addNode [Val.ptr (some n)] st1 with
+      | error e => simp [h2] at h
+      | ok r2 =>
+        obtain ⟨y, st2⟩ := r2
+        simp [h2] at h
+        obtain ⟨_, rfl⟩ := h
+        cases f with
+        | zero => simp [call] at h2
+        | succ g =>
+          exact AddN.addNode_ord cmpF hLaw (call cmpF procs g) g (call_specK cmpF g) (call_newRBNode cmpF g)
+            n st1 y st2 t H1 O1 h2
+
+/-- what `deleteNode` needs to know about `fixAfterDelete` beyond contract K: called on a leaf that has a parent, it
+    never leaves that node without a parent (it never rotates the node itself up to the root) -/
+def FixSpec (cmpF : Int → Int → Int) : Prop :=
+  ∀ fuel x st v st' t, Holds st t → x ∈ t.addrs → (st.h x).left = none → (st.h x).right = none →
+    (st.h x).parent ≠ none →
+    call cmpF procs fuel .fixAfterDelete [.ptr (some x)] st = .ok (v, st') → (st'.h x).parent ≠ none
+
+theorem ordwf_delete (hLaw : Ekit.RB.LawfulCmp cmpF) (hFix : FixSpec cmpF) (fuel : Nat) (k : Int) (st : St) (r : Val) (st' : St)
+    (hW : OrdWF cmpF st) (h : call cmpF procs fuel .Delete [.int k] st = .ok (r, st')) : OrdWF cmpF st' := by
+  obtain ⟨t, hH, hO⟩ := hW
+  cases fuel with
+  | zero => simp [call] at h
+  | succ f =>
+    simp only [call, runBody, procs, body_Delete, exec, evalE, Env.ofArgs, List.getD, Env.set] at h
+    cases h1 : call cmpF procs f .findNode [Val.int k] st with
+    | error e => simp [h1] at h
+    | ok r1 =>
+      obtain ⟨x, st1⟩ := r1
+      obtain ⟨t1, H1, S1, P1⟩ := call_specK cmpF f .findNode rfl [Val.int k] st x st1 t hH (by simp [PtrIn]) h1
+      have O1 := S1.ordered hO
+      cases x with
+      | ptr p =>
+        cases p with
+        | none =>
+          simp [h1, valEq, Env.set] at h
+          obtain ⟨_, rfl⟩ := h
+          exact ⟨t1, H1, O1⟩
+        | some a =>
+          simp [h1, valEq, Env.set] at h
+          cases h2 : call cmpF procs f .deleteNode [Val.ptr (some a)] st1 with
+          | error e => simp [h2] at h
+          | ok r2 =>
+            obtain ⟨y, st2⟩ := r2
+            simp [h2] at h
+            obtain ⟨_, rfl⟩ := h
+            cases f with
+            | zero => simp [call] at h2
+            | succ g =>
+              exact Del.deleteNode_ord cmpF hLaw (call cmpF procs g) g (call_specK cmpF g)
+                (call_getColor_pure cmpF g) (call_findSuccessor cmpF g) (hFix g) a st1 y st2 t1 H1 O1 P1 h2
+      | _ => simp [h1, valEq, Env.set] at h
+
+theorem ordwf_find (fuel : Nat) (k : Int) (st : St) (r : Val) (st' : St) (hW : OrdWF cmpF st)
+    (h : call cmpF procs fuel .Find [.int k] st = .ok (r, st')) : OrdWF cmpF st' := by
+  obtain ⟨t, hH, hO⟩ := hW
+  obtain ⟨t1, H1, S1, _⟩ := call_specK cmpF fuel .Find rfl [Val.int k] st r st' t hH (by simp [PtrIn]) h
+  exact ⟨t1, H1, S1.ordered hO⟩
+
+theorem ordwf_set (fuel : Nat) (k v : Int) (st : St) (r : Val) (st' : St) (hW : OrdWF cmpF st)
+    (h : call cmpF procs fuel .Set [.int k, .int v] st = .ok (r, st')) : OrdWF cmpF st' := by
+  obtain ⟨t, hH, hO⟩ := hW
+  obtain ⟨t1, H1, S1, _⟩ := call_specK cmpF fuel .Set rfl [Val.int k, Val.int v] st r st' t hH (by simp [PtrIn]) h
+  exact ⟨t1, H1, S1.ordered hO⟩
 
 end Ekit.MiniGo.RBHeap
